@@ -304,6 +304,7 @@ func (vc *VC) structSortOf(t types.Type, st *types.Struct) *Sort {
 	for i := 0; i < st.NumFields(); i++ {
 		f := st.Field(i)
 		s.Fields = append(s.Fields, Field{Name: f.Name(), Sort: vc.sortOf(f.Type())})
+		structFieldSMT[name+"."+f.Name()] = s.Fields[len(s.Fields)-1].Sort.SMT()
 	}
 	vc.structOrder = append(vc.structOrder, name)
 	return s
@@ -652,3 +653,6 @@ func sortedKeys(m map[string]bool) []string {
 	sort.Strings(ks)
 	return ks
 }
+
+// structFieldSMT: "Struct.Field" -> SMT sort of the field (used by the scalarisation pass of solve.go).
+var structFieldSMT = map[string]string{}
